@@ -93,9 +93,9 @@ theorem fits_is_accepted (e : Env) (s : Sess) (block : Bytes) (acc : List Ev) (h
   obtain ⟨mb, _, rfl⟩ := hev
   exact ⟨_, rfl⟩
 
-/-- the ready state of a session that greeted as `rd` (I/O fields: the peer keeps reading) -/
-def freshReady (rd : Bytes) : Sess :=
-  { st := .ready, sender := none, rcpts := [], remoteDomain := rd, sendErr := false, budget := none }
+/-- the ready state of a session that greeted as `rd` (I/O fields: the peer keeps reading), in the clear or inside TLS -/
+def freshReady (rd : Bytes) (tls : Bool := false) : Sess :=
+  { st := .ready, sender := none, rcpts := [], remoteDomain := rd, sendErr := false, budget := none, tls := tls }
 
 /-- after a refusal in DATA (indeed after every data phase) the session is READY with an empty envelope, and
     every following command line is handled exactly as in a fresh READY session of the same client: same
@@ -104,7 +104,7 @@ theorem usable_after_refusal (e : Env) (s : Sess) (block : Bytes) (acc : List Ev
     (line : Bytes) (acc' : List Ev) :
     (handleData e s block acc).1.st = .ready ∧ (handleData e s block acc).1.sender = none ∧
     (handleData e s block acc).1.rcpts = [] ∧
-    handleLine e (freshReady s.remoteDomain) line acc' =
+    handleLine e (freshReady s.remoteDomain s.tls) line acc' =
       (erase (handleLine e (handleData e s block acc).1 line acc').1,
         (handleLine e (handleData e s block acc).1 line acc').2) := by
   refine ⟨by simp [reset_st_of_ne s hs], by simp, by simp, ?_⟩
